@@ -6,7 +6,9 @@ Driver for C06. Case line:
 `(m (fut T|F) (ord A B …) (ord2 B A …) (enums E …) (c Name Base|- (field kind arg?) …) …)`
 
 field kinds: `s T` scalar, `o T` Optional scalar, `e E` enum, `oe E` Optional enum, `d` datetime, `od` Optional datetime,
-`j T` list of builtins, `r C` reference, `or C` Optional reference, `l C` collection.  The class list handed to the
+`j T` list of builtins, `r C` reference, `or C` Optional reference, `l C` collection, `cu P` / `ocu P` (Optional) field
+of a class `P` that is a key of the `type_mappings` argument (the item `(tm P Q …)` lists all keys, used or not; the
+model does not need it).  The class list handed to the
 model is the `c` entries re-ordered by `ord` (the order given to `ClassDiagram`).
 -/
 namespace KrroodVerif.Drive.C06
@@ -29,6 +31,8 @@ def parseField : Sexp → Option Field
   | .list [.atom f, .atom "r", .atom t] => some ⟨nm f, .ref (nm t) false⟩
   | .list [.atom f, .atom "or", .atom t] => some ⟨nm f, .ref (nm t) true⟩
   | .list [.atom f, .atom "l", .atom t] => some ⟨nm f, .coll (nm t)⟩
+  | .list [.atom f, .atom "cu", .atom _] => some ⟨nm f, .custom false⟩
+  | .list [.atom f, .atom "ocu", .atom _] => some ⟨nm f, .custom true⟩
   | _ => none
 
 def parseClass : List Sexp → Option Class
